@@ -131,8 +131,8 @@ Fixpoint enc_collect_from (lim : nat) (e : enc) (acc : list byte) : enc * list b
       end
   end.
 
-(* an upper bound of the number of next() calls: every payload byte yields <= 2 bytes *)
-Definition enc_limit (p : list byte) : nat := 2 * length p + 32.
+(* an upper bound of the number of next() calls: every payload byte yields <= 5 bytes *)
+Definition enc_limit (p : list byte) : nat := 5 * length p + 32.
 
 Definition enc_collect (p : list byte) : list byte :=
   snd (fst (enc_collect_from (enc_limit p) (enc_new p) [])).
